@@ -1629,6 +1629,11 @@ def stream_verdicts(c, streams, counts):
         ll = [lean[2*k], lean[2*k+1]]
         st = 'not-serialisable' if ll[0] is None or ll[1] is None else spec_status(ll[0]) if spec_status(ll[0]) != 'ok' else spec_status(ll[1])
         replay = dict(stream=stream, program=what, config=cfg_name(cfg), differential=cd['kind'], original=describe_funcs(funcs, args_list[0]), pickled=pack(funcs, args_list))
+        if st == 'undefined':
+            # the expression is not defined (an intermediate divides by zero, takes a root of a negative number, ...) at
+            # this argument value: outside the property's quantifier ("defined and finite"), not a verdict
+            counts['stream:candidate-dropped-original-undefined'] += 1
+            continue
         if st != 'ok':
             counts['stream:candidate-spec-' + st] += 1
             nbad[stream] += 1
